@@ -116,3 +116,7 @@ func verifHostFile(path string) string {
 }
 
 func verifEnv(name string) string { return os.Getenv(name) }
+
+// verifOverrides(true) activates the harness' verifOverride_<name> functions
+// inside symgo; natively it is a no-op (harnesses use concrete inputs there).
+func verifOverrides(on bool) {}
